@@ -54,6 +54,20 @@ def generate(rng, tier):
         cs.append(Case("integ.mac %s %s %s" % (" ".join(hx(x) for x in split5(rng, data)), bytes(s2).hex(), pk.hex()), "salt-bit-flip", pyref.integrity(data, bytes(s2), pk).hex() + " ~0", dict(n=L)))
         i = rng.randrange(256); p2 = bytearray(pk); p2[i // 8] ^= 1 << (i % 8)
         cs.append(Case("integ.gen %s %s %s" % (hx(data), salt.hex(), bytes(p2).hex()), "key-bit-flip", pyref.integrity(data, salt, bytes(p2)).hex() + " ~0", dict(n=L)))
+    # the five arguments are FILES: contents that begin or end with a format marker (byte-order marks, executable / plist / XML magics, line
+    # ends, NULs) or with a byte string that is a literal of the source under test — in every slot, for both five-file functions. The
+    # digest is over the bytes as they are; nothing may be trimmed, skipped or normalised.
+    markers = [b"\xef\xbb\xbf", b"\xff\xfe", b"\xfe\xff", b"MZ", b"\x7fELF", b"\xca\xfe\xba\xbe", b"\xcf\xfa\xed\xfe", b"<?xml", b"bplist00", b"\r\n", b"\n", b"\x00", b" ", b"\x1a"]
+    markers += [b for b in new_literals()[1]] + [b for b in source_dictionary()[1] if len(b) <= 16]
+    for mk in markers:
+        for slot in range(5):
+            for where in ("head", "tail"):
+                f = [rbytes(rng, rng.randint(0, 12)) for _ in range(5)]
+                f[slot] = (mk + f[slot]) if where == "head" else (f[slot] + mk)
+                salt, pk = rbytes(rng, 16), rbytes(rng, 32)
+                want = pyref.integrity(b"".join(f), salt, pk).hex() + " ~0"
+                for which in ("win", "mac"):
+                    cs.append(Case("integ.%s %s %s %s" % (which, " ".join(hx(x) for x in f), salt.hex(), pk.hex()), "file-%ss-with-a-format-marker" % ("start" if where == "head" else "end"), want, dict(n=sum(map(len, f)))))
     # calls in a row with the same salt and same-length but different contents (nothing may be remembered between calls),
     # and the two key values the SRP code refuses (the integrity hash has no such exception)
     for L in (1, 50, 64, 300):
